@@ -20,6 +20,8 @@ open TfelVerif TfelVerif.C22
 set_option maxRecDepth 100000
 set_option linter.unusedVariables false
 set_option linter.unusedSimpArgs false
+set_option linter.unusedTactic false
+set_option linter.unreachableTactic false
 
 variable {K : Type} [Field K] (c c3 : K) (fn : Fns K)
 
@@ -49,12 +51,6 @@ theorem Dr_N2_radicand (ρ : Nat → K) (t : K) :
     | [.mul .c3 (.powq a 1 6)] => eval c c3 fn (scale 4 t ρ) a = t ^ 6 * eval c c3 fn ρ a
     | _ => False := by
   radicand_homogeneous Gen.Dr_N2_v.all
-theorem Dr_N3_radicand (ρ : Nat → K) (t : K) :
-    match Gen.Dr_N3_v.all with
-    | [.mul .c3 (.powq a 1 6)] => eval c c3 fn (scale 6 t ρ) a = t ^ 6 * eval c c3 fn ρ a
-    | _ => False := by
-  radicand_homogeneous Gen.Dr_N3_v.all
-
 /-- degree-one homogeneity of the Drucker 1949 equivalent stress -/
 theorem Dr_N1_homogeneous (ρ : Nat → K) (t : K)
     (hpow : ∀ x : K, fn.pow (t ^ 6 * x) ((1 : K) / 6) = t * fn.pow x ((1 : K) / 6)) :
@@ -72,15 +68,6 @@ theorem Dr_N2_homogeneous (ρ : Nat → K) (t : K)
   have h := Dr_N2_radicand c c3 fn ρ t
   simp only [Gen.Dr_N2_v.all] at h ⊢
   exact homog_of_radicand c c3 fn _ _ _ t h hpow
-theorem Dr_N3_homogeneous (ρ : Nat → K) (t : K)
-    (hpow : ∀ x : K, fn.pow (t ^ 6 * x) ((1 : K) / 6) = t * fn.pow x ((1 : K) / 6)) :
-    match Gen.Dr_N3_v.all with
-    | [v] => eval c c3 fn (scale 6 t ρ) v = t * eval c c3 fn ρ v
-    | _ => False := by
-  have h := Dr_N3_radicand c c3 fn ρ t
-  simp only [Gen.Dr_N3_v.all] at h ⊢
-  exact homog_of_radicand c c3 fn _ _ _ t h hpow
-
 /-- Hosford with exponent 2 (1D): the traced value is `S · pow(a, 1/2)` where `S` is the traced von Mises stress
 `sqrt(m)` and `a = 1` as soon as `sqrt(m)² = m`, `sqrt(m) ≠ 0` -/
 theorem Ho2_N1_structure [CharZero K] (ρ : Nat → K) :
